@@ -25,7 +25,7 @@ func init() {
 			"Crosses/Overlaps dispatch on the dimension of the non-empty part of each operand",
 		},
 		MinNontrivial:    200,
-		RequiredMonitors: []string{"matrix", "transpose", "pred-Equals", "pred-Crosses", "pred-identities", "relate-matches"},
+		RequiredMonitors: []string{"matrix", "transpose", "pred-Equals", "pred-Crosses", "pred-identities", "relate-matches", "payload-blind"},
 		Run:              runAll,
 	})
 }
